@@ -271,6 +271,21 @@ def r6_channels(ctx):
             ctx.check(okc, "%s/stores-created-channel" % nm.split("::")[1], site_of(b), "the stored channel id is not the id of the channel just created")
 
 
+def r7_no_old_session_events(ctx):
+    """Queued events are dropped on (re)connect and their buffers cannot carry them over (C09.R1c restricted to event queues)."""
+    import rules.C09 as C09
+    before = len(ctx.instances)
+    C09.r1c_pool_hygiene(ctx)
+    keep = []
+    for i in ctx.instances[before:]:
+        if "ClientEventQueue" in i["key"] or "BufferedServerEvents" in i["key"] or not i["ok"] and "pools" in i["key"]:
+            keep.append(i)
+    ctx.instances[before:] = keep
+    S = schedule(ctx.F)
+    er = S.system("client::event::reset")
+    ctx.check(len(er) == 1 and "client::ClientSet::ResetEvents" in er[0]["sets"], "client::event::reset/registered", "", "queued events are not reset on connect")
+
+
 RULES = [
     ("C05.R1", "recipient selection: three implementations, every SendMode arm guarded as the mode demands", r1_recipients, 18, ["default", "all-features", "server-only"]),
     ("C05.R2", "clients that connected after buffering are excluded in every arm", r2_late_joiners, 6, ["default", "all-features", "server-only"]),
@@ -278,5 +293,6 @@ RULES = [
     ("C05.R4", "client sends through its persistent cursor, once per event, on the event's channel; triggers drain", r4_cursor, 8, ["default", "all-features"]),
     ("C05.R5", "client events with unmappable entities are not serialised; targets are mapped", r5_mapping, 4, ["default", "all-features"]),
     ("C05.R6", "event channels are created from the registered channel kind and remembered", r6_channels, 4, ["default", "all-features"]),
+    ("C05.R7", "events queued in a previous session cannot resurface (queue reset on connect, event pools emptied)", r7_no_old_session_events, 3, ["default", "all-features"]),
 ]
 THOROUGH_CONFIGS = ["default", "all-features", "server-only"]
